@@ -29,9 +29,9 @@ fn plan_for(prop: &str) -> Option<Plan> {
     Some(match prop {
         "C05" | "C06" | "C19" => Plan { engine: "linebuf", quick_runs: 500_000, thorough_runs: 40_000_000, sweep_every: 25, note: "underlying writes are all-or-nothing (datagram semantics); short writes are not injected; sockets are stubs" },
         "C07" => Plan { engine: "linebuf", quick_runs: 300_000, thorough_runs: 30_000_000, sweep_every: 1, note: "underlying writes are all-or-nothing (datagram semantics); short writes are not injected; sockets are stubs" },
-        "C08" | "C09" | "C10" | "C11" | "C15" | "C16" => Plan { engine: "queue", quick_runs: 250_000, thorough_runs: 20_000_000, sweep_every: 0, note: "the wrapped sink is scripted; crossbeam's blocking paths are replaced by simulated waiting; capacity 0 (rendezvous) is excluded from every oracle except no-panic" },
+        "C08" | "C09" | "C10" | "C11" | "C15" | "C16" => Plan { engine: "queue", quick_runs: 250_000, thorough_runs: 20_000_000, sweep_every: 0, note: "the wrapped sink is scripted; crossbeam's blocking paths are replaced by simulated waiting; capacity 0 (rendezvous, hand-modelled) is judged for everything except C10's occupancy clauses" },
         "C12" | "C13" | "C14" => Plan { engine: "sockets", quick_runs: 200_000, thorough_runs: 20_000_000, sweep_every: 0, note: "UDP/Unix datagram sockets are in-memory stubs (ledger + injectable result per send); the real kernel socket is not exercised" },
-        "C18" => Plan { engine: "holder", quick_runs: 300_000, thorough_runs: 30_000_000, sweep_every: 0, note: "the simulated execution is sequentially consistent; the memory-ordering half of the property is decided by a vector-clock happens-before tracker fed with the orderings written in the source (release sequences, acquire loads/RMWs, failed-CAS orderings, spawn/join edges)" },
+        "C18" => Plan { engine: "holder", quick_runs: 300_000, thorough_runs: 30_000_000, sweep_every: 0, note: "the simulated execution is sequentially consistent; the memory-ordering half of the property is decided by a vector-clock happens-before tracker fed with the orderings written in the source (release sequences, acquire loads/RMWs, failed-CAS orderings, fences, lock edges of hooked mutexes, spawn/join edges)" },
         "C03" => Plan { engine: "sinkfault", quick_runs: 150_000, thorough_runs: 10_000_000, sweep_every: 10, note: "the client's sink is scripted; the text of the line is not compared with a formatter model (that is C01/C04), only 'what was returned is what was emitted'" },
         "C17" => Plan { engine: "macroproc", quick_runs: 3_000, thorough_runs: 300_000, sweep_every: 0, note: "claimed narrowly: the history dimension (unset / set / second set, failing sink) is simulated with one fresh process per case; argument forms come from a compiled-in matrix of 22 macro/value-type combinations x 0..3 tags, not from all expressible token sequences" },
         _ => return None,
@@ -97,6 +97,7 @@ fn check_multi(prop: &str, tier: Tier, seed: u64, jobs: usize, parts: &[(&str, u
         "samples": samples,
         "per_engine": per_engine,
         "runs_per_hour": (evaluations as f64 / wall.max(0.001) * 3600.0).round(),
+        "caveats": std::env::var("VERIF_CAVEATS").ok().filter(|c| !c.is_empty()).map(|c| c.lines().map(|l| l.to_string()).collect::<Vec<_>>()).unwrap_or_default(),
     });
     if let (Some(o), Some(e)) = (cov.as_object_mut(), extra_cov.as_object()) {
         for (k, v) in e {
@@ -157,7 +158,7 @@ fn check_c06(tier: Tier, seed: u64, get: &dyn Fn(&str) -> Option<String>, has: &
         seed,
         jobs,
         &[("linebuf", 500_000, 40_000_000, 25), ("queue", 80_000, 6_000_000, 0)],
-        "linebuf: fault-free histories of emit/flush/drop judged by the reference model (see per_engine.linebuf.rule); queue: histories in which a real BufferedUdpMetricSink sits behind a QueuingMetricSink and flush() is called through the queuing handle concurrently with the worker (see per_engine.queue.rule); distinct non-trivial counts are summed",
+        "linebuf: histories of emit/flush/drop (a quarter with refused writes) judged by the reference model (see per_engine.linebuf.rule); queue: histories in which a real BufferedUdpMetricSink sits behind a QueuingMetricSink and flush() is called through the queuing handle concurrently with the worker (see per_engine.queue.rule); distinct non-trivial counts are summed",
         serde_json::json!({}),
         vec!["underlying writes are all-or-nothing (datagram semantics); sockets are stubs".to_string(), "sampling, not proof".to_string()],
         !has("--no-evidence"),
